@@ -88,6 +88,9 @@ func enabledOps(cfg Cfg, head, tail uint64, a alphaOpts) []Op {
 	}
 	if a.Restart {
 		ops = append(ops, Op{K: "restart"})
+		if a.AppendDel && head != 0 && head+1 <= n {
+			ops = append(ops, Op{K: "restartappend", Lo: head + 1, Hi: head + 1})
+		}
 	}
 	if a.ReadAll {
 		ops = append(ops, Op{K: "readall"})
@@ -102,7 +105,7 @@ func histFeat(cfg Cfg, hist []Op) string {
 		kinds[o.K] = true
 	}
 	var ks []string
-	for _, k := range []string{"gapappend", "revappend", "burstrestart", "appenddel", "delete", "restart", "readall"} {
+	for _, k := range []string{"gapappend", "revappend", "burstrestart", "appenddel", "restartappend", "delete", "restart", "readall"} {
 		if kinds[k] {
 			ks = append(ks, k)
 		}
